@@ -21,13 +21,13 @@ var c13Results = map[string]string{}
 
 // delivery kinds
 const (
-	c13Sync    = iota // Interp.Interrupt called on the evaluating goroutine before statement k
-	c13Async          // called by another goroutine while the evaluating one waits before statement k
-	c13Double         // two interrupts, before statements k and k+3
-	c13Hook           // called from inside the j-th compiled function call
-	c13Debug          // with Ctrl+C-enters-debugger: the debugger must be entered; it answers continue
-	c13DebugKill      // ... it answers with a kill panic
-	c13Between        // delivered while idle, before the evaluation starts
+	c13Sync      = iota // Interp.Interrupt called on the evaluating goroutine before statement k
+	c13Async            // called by another goroutine while the evaluating one waits before statement k
+	c13Double           // two interrupts, before statements k and k+3
+	c13Hook             // called from inside the j-th compiled function call
+	c13Debug            // with Ctrl+C-enters-debugger: the debugger must be entered; it answers continue
+	c13DebugKill        // ... it answers with a kill panic
+	c13Between          // delivered while idle, before the evaluation starts
 	c13Kinds
 )
 
